@@ -22,6 +22,24 @@ HOSTILE = [
 SYM_HOSTILE = [s for s in HOSTILE if "\n" not in s and "\r" not in s and "\x00" not in s and s.strip() == s and s] + ["a b  c", "f(int, char*)"]
 
 
+# amd64 encodings planted at the exception's ip: (hex, note)
+INSTRUCTIONS = [
+    ("8b00", "mov eax,[rax] read"), ("488b4308", "mov rax,[rbx+8] read"), ("8a0424", "mov al,[rsp] read"),
+    ("8b0510000000", "mov eax,[rip+0x10] read"), ("8b048b", "mov eax,[rbx+rcx*4] read"), ("483908", "cmp [rax],rcx read"),
+    ("3b03", "cmp eax,[rbx] read"), ("8908", "mov [rax],ecx write"), ("48894df8", "mov [rbp-8],rcx write"),
+    ("c60001", "mov byte [rax],1 write"), ("48890424", "mov [rsp],rax write"),
+    ("0108", "add [rax],ecx rmw"), ("48832801", "sub qword [rax],1 rmw"), ("ff00", "inc dword [rax] rmw"),
+    ("ff4b10", "dec dword [rbx+0x10] rmw"), ("f0480fb10b", "lock cmpxchg [rbx],rcx rmw"), ("48314308", "xor [rbx+8],rax rmw"),
+    ("4801d8", "add rax,rbx reg"), ("4889c8", "mov rax,rcx reg"), ("ff10", "call [rax]"), ("ff20", "jmp [rax]"),
+    ("ffd0", "call rax"), ("ffe0", "jmp rax"), ("e800010000", "call rel32"), ("eb10", "jmp rel8"), ("c3", "ret"), ("50", "push rax"),
+    ("58", "pop rax"), ("ff30", "push [rax]"), ("8f00", "pop [rax]"), ("f7f1", "div ecx"), ("48f738", "idiv qword [rax]"),
+    ("f4", "hlt priv"), ("fa", "cli priv"), ("0f01d0", "xgetbv"), ("90", "nop"), ("cc", "int3"), ("0f0b", "ud2"),
+    ("a4", "movsb"), ("48a5", "movsq"), ("f3a4", "rep movsb"), ("0fb600", "movzx eax,byte [rax]"), ("0f1000", "movups xmm0,[rax]"),
+    ("ffff", "undecodable"), ("06", "invalid in 64-bit"), ("48", "truncated"), ("0f", "truncated 2"), ("c5", "truncated vex"),
+]
+PROTS = [1, 2, 4, 0x20, 0x40, 0x104, 0x10, 8, 0]
+
+
 def hx(s):
     b = s.encode("utf-8")
     return b.hex() if b else "-"
@@ -61,7 +79,7 @@ def addr_ok(v, width32):
 class C15(PropBase):
     pid = "C15"
     coq_dirs = ["Base", "C15"]
-    translators = []
+    translators = ["c15_enums.py"]
     bins = ["c15"]
     has_model_driver = False        # two-stage: the model renders from the facts the harness prints (see extra)
     impl_mem_gb = 6
@@ -104,6 +122,8 @@ class C15(PropBase):
     # ------------------------------------------------------------------ generation
     def gen_case(self, rng, dist, base):
         c = base.make_case(rng, {})
+        if rng.chance(1, 3):
+            c.arch, c.trunc, c.bits32 = 9, False, False
         good = [i for i, (b, s) in enumerate(c.mods) if s != 0 and b + s <= U64 and s >= 0x1000]
         symmods = [i for i in good if rng.chance(1, 2)]
         # place frames inside symbolised modules
@@ -115,6 +135,7 @@ class C15(PropBase):
                 if off < s:
                     ip = b + off
                     t["ip"] = ip & U32 if c.trunc else ip
+        tail = self.gen_instruction_tail(rng, c, dist)
         tn = [rng.choice(HOSTILE) for _ in range(rng.choice([0, 1, 2, 3]))]
         mn = []
         for i in range(len(c.mods)):
@@ -138,10 +159,74 @@ class C15(PropBase):
         line += " X TN %d %s MN %d %s UN %d %s SYM %d %s" % (
             len(tn), " ".join(hx(s) for s in tn), len(mn), " ".join(hx(s) for s in mn), len(un), " ".join(hx(s) for s in un),
             len(syms), " ".join("%d %s" % (i, hx(t)) for i, t in syms))
+        line += " " + tail
         dist["with_symbols"] = dist.get("with_symbols", 0) + bool(syms)
         dist["width_%s" % ("32" if c.arch in c14mod.ARCH_W32 else "64" if c.arch in (9, 12, 0x8002, 0x8003, 0x8004) else "unknown")] = \
             dist.get("width_%s" % ("32" if c.arch in c14mod.ARCH_W32 else "64" if c.arch in (9, 12, 0x8002, 0x8003, 0x8004) else "unknown"), 0) + 1
         return " ".join(line.split())
+
+    def gen_instruction_tail(self, rng, c, dist):
+        """amd64 crash with instruction bytes at the exception ip, registers, memory info; Linux extras"""
+        ins, regs, minfo = "-", [], []
+        osc = c14mod.os_class(c.platform)
+        if c.arch == 9 and c.threads and rng.chance(4, 5):
+            A = rng.choice([0x00007f0012345678, rng.below(1 << 47) & ~7, 0x10, 0x1008, 0, 0x0000800000001230, 0xffff7fffffffe000,
+                            U64, 0x00007ffff7dd1000 ^ (1 << rng.below(47)), 0x00007ffff7dd1008])
+            hexs, note = rng.choice(INSTRUCTIONS)
+            ins = hexs
+            pois = [0xe5e5e5e5e5e5e5e5, 0x2b2b2b2b2b2b2b2b, 0, 1, U64]
+            regs = [rng.choice([A, (A + rng.range(-64, 64)) & U64, rng.below(1 << 64), rng.choice(pois)]) for _ in range(16)]
+            regs[0] = A if rng.chance(3, 4) else regs[0]                       # [rax]
+            regs[3] = (A - rng.choice([8, 0x10, 0])) & U64 if rng.chance(3, 4) else regs[3]   # [rbx+8] / [rbx+0x10] / [rbx]
+            regs[5] = (A + 8) & U64 if rng.chance(1, 2) else regs[5]           # [rbp-8]
+            regs[1] = rng.choice([0, 1, 2, regs[1]])
+            ip = 0x00007ff700001000 + 16 * rng.below(64)
+            e = c.exc or dict(tid=0, code=0, flags=0, np=0, i0=0, i1=0, i2=0, addr=0, ck=1, ip=0, sp=0)
+            e["ck"] = 1 if rng.chance(9, 10) else e["ck"]
+            e["ip"] = ip
+            e["sp"] = (c.mems[0][0] + 8 * rng.below(4)) if c.mems and rng.chance(1, 2) else rng.choice([A, 0x7ffd0000, rng.below(1 << 47) & ~7])
+            e["tid"] = rng.choice(c.threads)["id"] if rng.chance(4, 5) else e["tid"]
+            addr = A if rng.chance(2, 3) else rng.choice([0, U64, ip, rng.below(1 << 47)])
+            if osc == c14mod.OS_WIN:
+                k = rng.below(8)
+                if k <= 3:
+                    e["code"], e["np"], e["i0"], e["i1"] = 0xC0000005, rng.choice([2, 2, 2, 1, 0]), rng.choice([0, 1, 8, 0, 1, 3]), addr
+                elif k == 4:
+                    e["code"] = 0xC0000094
+                elif k == 5:
+                    e["code"] = 0xC0000096
+                elif k == 6:
+                    e["code"] = 0xC00000FD
+                e["addr"] = ip if rng.chance(1, 2) else addr
+            elif osc == c14mod.OS_LINUX:
+                e["code"], e["flags"] = rng.choice([(11, 1), (11, 2), (11, 0x80), (7, 0x80), (8, 1), (4, 5), (7, 2), (5, 1), (11, 0)])
+                e["addr"] = 0 if e["flags"] == 0x80 and rng.chance(2, 3) else addr
+            elif osc == c14mod.OS_MAC:
+                e["code"], e["flags"] = rng.choice([(1, 13), (1, 1), (1, 2), (3, 1), (2, 1), (6, 1)])
+                e["addr"] = 0 if e["flags"] == 13 and rng.chance(2, 3) else addr
+            else:
+                e["addr"] = addr
+            c.exc = e
+            page = A & ~0xfff & U64
+            st = rng.below(5)
+            if st <= 2 and page + 0x2000 <= U64:
+                minfo.append((page, 0x1000, rng.choice(PROTS)))
+                if rng.chance(2, 3):
+                    minfo.append((page + 0x1000, 0x1000, rng.choice([4, 2, 0x20, 1])))
+                if rng.chance(1, 3) and page >= 0x1000:
+                    minfo.append((page - 0x1000, 0x1000, rng.choice([4, 2, 1])))
+            if st >= 2:
+                f = (A ^ (1 << rng.below(47))) & ~0xfff & U64
+                if f + 0x1000 <= U64 and all(f + 0x1000 <= b or b + sz <= f for (b, sz, _) in minfo):
+                    minfo.append((f, 0x1000, rng.choice([4, 2, 0x20])))
+            dist["instruction_" + note.split()[-1]] = dist.get("instruction_" + note.split()[-1], 0) + 1
+        cpuinfo = lsb = "-"
+        if osc == c14mod.OS_LINUX and rng.chance(1, 2):
+            cpuinfo = hx("processor\t: 0\nvendor_id\t: GenuineIntel\nmicrocode\t: %s\n" % rng.choice(["0x1a", "0xffffffffffffffff", "0x0", "zz", "26"]))
+            lsb = hx("DISTRIB_ID=%s\nDISTRIB_RELEASE=\"22.04\"\nDISTRIB_CODENAME=%s\nDISTRIB_DESCRIPTION=\"%s\"\n" % (
+                rng.choice(["Ubuntu", "de\\b\"ian"]), rng.choice(["jammy", "x\ty"]), rng.choice([s for s in HOSTILE if "\n" not in s and "\r" not in s and "\x00" not in s])))
+        return "INS %s REGS %d %s MINFO %d %s CPUINFO %s LSB %s" % (
+            ins, len(regs), " ".join(map(str, regs)), len(minfo), " ".join("%d %d %d" % m for m in minfo), cpuinfo, lsb)
 
     def gen_cases(self, tier, seed):
         rng = Rng(seed * 7919 + 15)
@@ -179,6 +264,8 @@ class C15(PropBase):
             if label == "compact" and re.search(r"[\x00-\x1f]", text):
                 return "compact output contains a raw control character"
         doc = docs[0]
+        if profile == self.profiles[0]:
+            self.count_keys(doc, "$")
         if docs[0] != docs[1]:
             return "compact and pretty output differ as JSON values"
         deferred = None
@@ -309,6 +396,39 @@ class C15(PropBase):
             return "pid not an integer"
         return deferred
 
+    # how many reports had each (optional) member present and non-null / non-empty — makes generator gaps visible
+    def count_keys(self, v, path):
+        cov = self.__dict__.setdefault("_cov", {})
+        if isinstance(v, dict):
+            for k, x in v.items():
+                pk = path + "." + (k if not path.endswith(".registers") else "*")
+                if x is None or x == [] or x == {}:
+                    cov.setdefault(pk, 0)
+                    continue
+                cov[pk] = cov.get(pk, 0) + 1
+                self.count_keys(x, pk)
+        elif isinstance(v, list):
+            seen = set()
+            for x in v:
+                if isinstance(x, (dict, list)):
+                    sub = {}
+                    old, self._cov = self._cov, sub
+                    self.count_keys(x, path + "[]")
+                    self._cov = old
+                    for k2, n in sub.items():
+                        old.setdefault(k2, 0)
+                        if n and k2 not in seen:
+                            seen.add(k2)
+                            old[k2] += 1
+                elif isinstance(x, str) and ("crash_inconsistencies" in path):
+                    k2 = path + "=" + x
+                    if k2 not in seen:
+                        seen.add(k2)
+                        cov[k2] = cov.get(k2, 0) + 1
+        elif isinstance(v, str) and path.rsplit(".", 1)[-1] in ("access_type", "trust", "kind", "cpu_arch", "os"):
+            k2 = path + "=" + (v if not v.startswith("0x") else "<hex>")
+            cov[k2] = cov.get(k2, 0) + 1
+
     def nontrivial(self, case, ans):
         return '"crashing_thread":{' in ans.split("\t")[1] or '"missing_symbols":false' in ans.split("\t")[1] if "\t" in ans else False
 
@@ -351,6 +471,7 @@ class C15(PropBase):
                             j += 1
                         out.append({"case": ctx["cases"][i], "profile": prof, "found_input": True, "what": what,
                                     "model": mview[max(0, j - 80):j + 120], "impl": view[max(0, j - 80):j + 120]})
+        ctx["info"]["member_coverage_reports_with_member_present"] = dict(sorted(self.__dict__.get("_cov", {}).items()))
         ctx["info"]["traces_validated_against_impl"] = compared
         ctx["info"]["correspondence_mismatches"] = mism
         return out
